@@ -65,15 +65,33 @@ def run_one(h, prop):
     impl, model, problems, spec = engine.run_histories([h], timeout=120, shards=1, want_spec=prop.needs_spec)
     il, ml = impl.get(h.hid, []), model.get(h.hid, [])
     prop.spec_lines.update(spec)
+    prop.model_lines.update(model)
     cmp_ = engine.compare_history(h, ml, il, prop.in_projection)
     problems = [p for p in problems if p["kind"] == "impl"]
     finding = prop.oracle(h, il) if not problems else {"reason": "implementation run did not finish", "index": len(il)}
     return cmp_, finding, il, ml
 
 
+def linearise(h, index, prop, want):
+    """a failure inside a bfs tour is first turned into the linear history that reaches it"""
+    if not h.meta.get("bfs") or index is None or index < 0:
+        return h
+    import props_core
+    try:
+        cand = props_core.bfs_linear(h, min(index, len(h.ops) - 1))
+        cmp_, finding, _, _ = run_one(cand, prop)
+        if want(cmp_, finding):
+            return cand
+    except Exception as e:      # best effort
+        log("linearise failed: %r" % e)
+    return History(h.hid, h.n, h.ops[: index + 1], {})
+
+
 def shrink(h, prop, want):
     """delta debugging on the op list; `want(cmp, finding)` says whether a
     candidate still shows the failure"""
+    if len(h.ops) > 5000:
+        return h
     ops = list(h.ops)
     budget = 400
     was_inside = gen.first_outside_limits(h) is None
@@ -150,6 +168,11 @@ def main():
     proof_errors = list(audit["errors"]) + ["forbidden: " + b for b in bad_src]
     if audit["open_assumptions"]:
         proof_errors.append("open assumptions: %s" % audit["open_assumptions"])
+    chk = None
+    if tier == "thorough" and not proof_errors:
+        chk = engine.coqchk_property(pid)
+        if not chk["ok"]:
+            proof_errors.append("coqchk: axioms=%s %s" % (chk["axioms"], chk["tail"]))
 
     # ---- (2)+(3) tie and oracle
     rng = gen.Rng(seed)
@@ -163,6 +186,7 @@ def main():
     log("[%s] %d histories (%d corpus), running ..." % (pid, len(hs), n_corpus))
     impl, model, problems, spec = engine.run_histories(hs, timeout=prop.timeout(tier), want_spec=prop.needs_spec)
     prop.spec_lines = spec
+    prop.model_lines = model
     stats = {"agree": 0, "diverge": 0, "unmodelled": 0, "outoffuel": 0, "offproj": 0,
              "compared_calls": 0, "abs_only": 0}
     first_div, first_find = None, None
@@ -206,6 +230,14 @@ def main():
         if len(samples) < 3 and not h.hid.startswith("corpus"):
             samples.append({"history": h.hid, "N": h.n, "ops": h.ops[:40], "impl_trace_tail": [x[:200] for x in il[-2:]]})
 
+    if first_find is None:
+        try:
+            extra = prop.post_run(hs, impl, tier)
+        except engine.BuildError as e:
+            extra = (None, {"reason": "post-run build failed: %s" % str(e)[:800], "index": -1})
+        if extra is not None:
+            first_find = extra
+
     for p in problems:
         if p["kind"] == "impl" and first_find is None:
             # crash / sanitizer abort / time-out of the implementation process
@@ -220,6 +252,7 @@ def main():
         if h is not None and len(h.ops) > 3:
             want = lambda c, f: f is not None and prop.known_finding(h, [], f) is None
             try:
+                h = linearise(h, finding.get("index"), prop, want)
                 h2 = shrink(h, prop, want)
                 c2, f2, il2, ml2 = run_one(h2, prop)
                 if f2 is not None:
@@ -261,6 +294,7 @@ def main():
             if first_div is not None:
                 h, cmp_ = first_div
                 try:
+                    h = linearise(h, cmp_.get("index"), prop, lambda c, f: c["status"] in ("diverge", "outoffuel"))
                     h = shrink(h, prop, lambda c, f: c["status"] in ("diverge", "outoffuel"))
                     cmp2, _, _, _ = run_one(h, prop)
                     if cmp2["status"] in ("diverge", "outoffuel"):
@@ -285,6 +319,7 @@ def main():
         "trusted_base": props.TRUSTED_BASE + prop.trusted_extra,
         "theorems": audit["theorems"],
         "proof_errors": proof_errors,
+        "coqchk": chk if chk is not None else "thorough tier only",
         "model_build": mb,
         "evaluations": len(hs),
         "distinct_nontrivial": len(sigs),
